@@ -403,6 +403,7 @@ def emu_ok(s):
 
 def run(chk):
     chk.trusted_base = common.BASE_TRUST + [
+        "translate/units/_cmp.py + translate/c2gallina.py (clang JSON AST): the comparison part of the C comparators (ovnisort.c cmp_ev) is translated to Gallina on every run, the statements that fetch the compared integers are pinned as normalised source text, not translated",
         "hand model coq/Tools/WinsortDefs.v of src/emu/ovnisort.c (ring = last n-1 events, S/U/X machine, find_destination, "
         "sort of the window by uint64 clock, ring_check, -c) tied to the working tree by byte-for-byte comparison of stream.obs and exit status "
         "on generated traces",
@@ -416,7 +417,7 @@ def run(chk):
                        "stream files contain whole events only",
                        "streams of a trace are independent (the ring is reset per stream); traces with 1 or 2 streams are exercised",
                        "a stream without events is skipped by both modes (/repo 4875105); corpus/C16/02 is the regression case"]
-    chk.prove()
+    chk.translate_and_prove(["cmp_winsort"])
 
     build = common.repo_build("hook")
     oracle = None
